@@ -208,6 +208,11 @@ func (e *Engine) globalAddrByObj(o types.Object) *Term {
 }
 
 func (e *Engine) strConst(s string) *Term {
+	if s == "" {
+		// the empty string is the zero value of the type: handle 0, as zeroed memory reads
+		e.strByID[0] = ""
+		return BVc(0, 64)
+	}
 	if id, ok := e.strIDs[s]; ok {
 		return BVc(id, 64)
 	}
